@@ -11,8 +11,24 @@ func bytesZ(b []byte) Z {
 }
 
 // vh_c14_decompose: bufcap < 0 means a nil buffer, otherwise make([]byte, buflen, bufcap).
-func vh_c14_decompose(class, buflen, bufcap int) {
+// nb (finite class only): number of significant coefficient bytes 1..16 (0: the coefficient is zero).
+func vh_c14_decompose(class, buflen, bufcap, nb int) {
 	d := ndClass("d", class)
+	if class == 0 {
+		nsig, _ := d.decompose()
+		if nb == 0 {
+			assume(z128(nsig).IsZero())
+		} else {
+			assume(z128(nsig).Ge(zpow2(8*(nb-1))) && z128(nsig).Lt(zpow2(8*nb)))
+		}
+	}
+	if class == 0 {
+		// implied by "not special" (the exponent field of a finite pattern is below 12288); stated so that
+		// the interval analysis knows it
+		dsig, dx := d.decompose()
+		assume(dx >= 0 && dx <= maxBiasedExponent)
+		assume(z128(dsig).Le(zMAX()) && dsig[1] <= 0x0002_7fff_ffff_ffff)
+	}
 	var buf []byte
 	if bufcap >= 0 {
 		buf = make([]byte, buflen, bufcap)
